@@ -797,6 +797,12 @@ def c04_worker(job):
                 genome, anno, _ = gen_ref.load_reference(case)
                 recs = recs + gen_ref.plant_i_to_l(anno, genome, rng, 2)
                 recs = gen_ref.duplicate_isoforms(case, recs)
+                # identical proteins, the first-listed one cds_start_NF: the pool must still hold the
+                # Met-removed N-terminal peptides of the complete one
+                if rng.random() < 0.8:
+                    nf = gen_ref.tag_cds_start_nf(case, rng)
+                    if nf:
+                        out['stats']['first_of_identical_proteins_cds_start_nf'] = 1
             gen_ref.write_gvfs(case, recs)
             # non-coding twins of coding transcripts: callNovelORF re-derives canonical peptides
             # (incl. the Met-removed, miscleaved N-terminal ones) from ANOTHER transcript
